@@ -28,3 +28,45 @@ Print Assumptions C04_count_memoised.
 Theorem C04_own_wire_schema_accepted : all_override_ok all_schemas = true.
 Proof. exact all_schemas_override_ok. Qed.
 Print Assumptions C04_own_wire_schema_accepted.
+
+(* ---- end to end: streams across a version skew (append-only evolution old -> new) ----
+   forward: EVERY stream of an older writer (its own encoder tree, any frames/records satisfying
+   stream_ok) that announces its wire schema is opened by a newer reader with the older tree and read
+   back completely: all records, in order, then a clean end. *)
+From Stef Require Import Wire WireOk Frame FrameFacts Reader Writer StreamFactsBase StreamFacts Handshake HandshakeFacts EvolveFactsBase EvolveFacts.
+
+Theorem C04_forward_read : forall old new root sizes fuel hfl ud frames kr k,
+  schema_closed old = true -> evolves old new = true ->
+  root < N.of_nat (length (structs old)) -> build_ok old root = true ->
+  compatible (own_counts new root) (own_counts old root) = true ->
+  let t := fst (build_root old root None) in
+  let d := Some (own_counts old root) in
+  header_okb hfl d ud = true ->
+  stream_ok sizes fuel t frames wst0 RNil (PM.empty _) = true ->
+  (length frames < kr)%nat -> (length (concat (map snd frames)) < k)%nat ->
+  exists r0,
+    reader_open new root (SrcBytes (emit_frame hfl (header_content d ud) ++ emit_all (stream_encode t wst0 frames))) = inr r0 /\
+    rd_tree r0 = t /\ rd_wire_schema r0 = d /\ rd_user_data r0 = ud /\
+    read_all sizes fuel kr k r0 =
+    (concat (map snd frames), stream_values t frames RNil (PM.empty _), Some RdEnd).
+Proof. exact forward_read_bytes. Qed.
+Print Assumptions C04_forward_read.
+
+(* downgrade: a newer writer told to write the older wire schema is created, encodes with the OLDER
+   tree and announces the older schema; the older reader reads every such stream completely *)
+Theorem C04_downgrade_write_read : forall v old new root md sizes fuel hfl ud frames kr k tw descr,
+  schema_closed old = true -> evolves old new = true ->
+  root < N.of_nat (length (structs old)) -> build_ok old root = true ->
+  is_incompat (compat3 v (own_counts new root) (own_counts old root)) = false ->
+  new_writer v new root (mkWopts (Some (own_counts old root)) true md) = Some (tw, descr) ->
+  header_okb hfl descr ud = true ->
+  stream_ok sizes fuel tw frames wst0 RNil (PM.empty _) = true ->
+  (length frames < kr)%nat -> (length (concat (map snd frames)) < k)%nat ->
+  tw = fst (build_root old root None) /\ descr = Some (own_counts old root) /\
+  exists r0,
+    reader_open old root (SrcBytes (emit_frame hfl (header_content descr ud) ++ emit_all (stream_encode tw wst0 frames))) = inr r0 /\
+    rd_tree r0 = tw /\ rd_wire_schema r0 = descr /\ rd_user_data r0 = ud /\
+    read_all sizes fuel kr k r0 =
+    (concat (map snd frames), stream_values tw frames RNil (PM.empty _), Some RdEnd).
+Proof. exact downgrade_write_read_bytes. Qed.
+Print Assumptions C04_downgrade_write_read.
